@@ -12,6 +12,10 @@ tmp=$(mktemp)
 sel=("$@")
 for d in seeded/C*-*/; do
   id=$(basename "$d"); prop=${id%%-*}
+  # (a change can break another property than the one its author was given:
+  # meta.json "decided_by" names the check that decides it)
+  alt=$(python3 -c "import json;print(json.load(open('/verif/${d}meta.json')).get('decided_by',''))" 2>/dev/null)
+  [ -n "$alt" ] && prop=$alt
   if [ ${#sel[@]} -gt 0 ]; then
     keep=0; for s in "${sel[@]}"; do [[ "$id" == $s* ]] && keep=1; done
     [ $keep -eq 0 ] && continue
